@@ -1,7 +1,7 @@
 (* C07, second part - re-delivery AT ANY LATER POINT (after arbitrary further deliveries, local API calls, rollbacks,
-   restarts), for the event kinds where the code keeps the promise; and machine-checked witnesses for the three classes of
+   restarts), for the event kinds where the code keeps the promise; and machine-checked witnesses for the classes of
    history where it does not (known findings).  Statements only. *)
-From MDK Require Import Base.Prelude Base.AMap Mdk.Engine Mdk.EngineSpec Mdk.EngineProofs Mdk.EngineProofs4.
+From MDK Require Import Base.Prelude Base.AMap Mdk.Engine Mdk.EngineSpec Mdk.EngineProofs Mdk.EngineProofs4 Mdk.EngineProofs5.
 (* later_ok, record_stamped and not_yet_committed are re-stated here (same bodies as in Mdk/EngineProofs4.v, convertible) so that
    this file can be read on its own *)
 
@@ -94,11 +94,28 @@ Print Assumptions C07_applied_commit_acknowledged_counterexample.
 
 (* ---- witnesses for the known finding classes: reachable histories (from init_client, by deliveries and API calls only)
    on which re-delivering an event that had taken effect changes the observable projection *)
-Theorem C07_late_proposal_refuted : exists i a r ops e,
-  let c := erun (init_client i a r) ops in
-  e_kind e = 2 /\ In (ODeliver e) ops /\ proj (fst (deliver c e)) <> proj c.
-Proof. exact late_proposal_refuted. Qed.
-Print Assumptions C07_late_proposal_refuted.
+(* (C07_late_proposal_refuted - a queued leave proposal offered again after a later-stamped commit of its epoch rolled the
+   client back - was the witness of the known finding `late-proposal-treated-as-mip03-candidate`; since the repair it no
+   longer holds and is replaced by the three positive statements below) *)
+
+(* since the repair (only commits are MIP-03 candidates): an event that is not a commit never rolls a client back *)
+Theorem C07_only_commits_roll_back : forall c e, is_commit_kind e = false -> rollbacks (fst (deliver c e)) = rollbacks c.
+Proof. exact only_commits_roll_back. Qed.
+Print Assumptions C07_only_commits_roll_back.
+
+(* a proposal of another epoch (late or early) is refused without any observable effect *)
+Theorem C07_late_proposal_no_effect : forall c e, Inv c -> e_kind e = 2 -> e_epoch e <> k_epoch (kc c) ->
+  proj (fst (deliver c e)) = proj c /\ queue (fst (deliver c e)) = queue c.
+Proof. exact late_proposal_no_effect. Qed.
+Print Assumptions C07_late_proposal_no_effect.
+
+(* re-delivering a queued proposal of another member at any later point of a run in which the client has moved to
+   another epoch changes nothing (this was the known finding `late-proposal-treated-as-mip03-candidate`) *)
+Theorem C07_queued_proposal_later_epoch : forall c e ops, Inv c -> queue_wf c -> e_kind e = 2 ->
+  let c' := erun (fst (deliver c e)) ops in
+  e_epoch e <> k_epoch (kc c') -> proj (fst (deliver c' e)) = proj c'.
+Proof. exact queued_proposal_later_epoch. Qed.
+Print Assumptions C07_queued_proposal_later_epoch.
 
 Theorem C07_own_echo_other_pending_refuted : exists i a r ops e,
   let c := erun (init_client i a r) ops in
